@@ -34,11 +34,15 @@ package rapid
 
 //@ func bitStream.beginGroup
 //@   params s, label, standalone
-//@   ensures gbegin[result] == drawn
+//@   ensures gbegin[result] == drawn && result >= 0
 
+// endGroup's internal assertion ("group did not use any data from bitstream") is modelled as a panic
+// outcome, so every caller must either make it infeasible or allow a string panic to escape. Built-in
+// generators do not allow it: for them the assertion is proved never to fire.
 //@ func bitStream.endGroup
 //@   params s, i, discard
-//@   requires [C03] discard || drawn > gbegin[i]
+//@   ensures discard || drawn > gbegin[i]
+//@   panics string: !(discard || drawn > gbegin[i])
 
 // ---------------------------------------------------------------------------------------------
 // utils.go
@@ -156,3 +160,32 @@ package rapid
 //@   ensures drawn > old(drawn)
 //@   panics invalidData: drawn >= old(drawn)
 //@   modifies drawn
+
+// ---------------------------------------------------------------------------------------------
+// repeat: collection length control
+
+//@ define repeatInv(r) = 0 <= r.minCount && r.minCount <= r.maxCount && 0 <= r.count && r.pContinue >= 0 && r.pContinue <= 1
+//@ define groupUsed(r) = implies(r.group >= 0, drawn > gbegin[r.group])
+
+//@ func newRepeat
+//@   requires [C03] maxCount < 0 || minCount <= maxCount
+//@   requires [C03] minCount < 1<<52
+//@   requires [C03] avgCount < 0 || avgCount >= float64(minCount)
+//@   ensures [C03] fresh(result) && repeatInv(result)
+//@   ensures [C03] result.count == 0 && result.group == -1 && !result.forceStop
+//@   ensures [C03] result.minCount == ite(minCount < 0, 0, minCount) && result.maxCount == ite(maxCount < 0, math.MaxInt, maxCount)
+
+//@ func (*repeat).more
+//@   requires [C03] repeatInv(r) && groupUsed(r)
+//@   ensures [C03] repeatInv(r) && groupUsed(r)
+//@   ensures [C03,C08] implies(result, r.count == old(r.count) + 1 && old(r.count) < r.maxCount && r.group >= 0)
+//@   ensures [C03,C08] implies(!result, r.count == old(r.count) && r.count >= r.minCount)
+//@   ensures drawn > old(drawn)
+//@   panics invalidData: drawn >= old(drawn)
+//@   modifies r.group, r.rejected, r.count, drawn
+
+//@ func (*repeat).reject
+//@   requires [C03] repeatInv(r) && r.count > 0
+//@   ensures [C03] repeatInv(r) && r.count == old(r.count) - 1 && r.rejected
+//@   panics invalidData: r.count < r.minCount
+//@   modifies r.count, r.rejected, r.rejections, r.forceStop
